@@ -175,6 +175,8 @@ func viaLines(class, tag string) []string {
 		return []string{"Via: 1.1 other", "Via: 1.1 " + tag}
 	case "ownWithComment":
 		return []string{"Via: 1.1 " + tag + " (a comment)"}
+	case "ownNominated":
+		return []string{"Via: 1.0 first, 1.1 " + tag, "Connection: Via"}
 	}
 	fatal("unknown via class %q", class)
 	return nil
